@@ -1101,7 +1101,7 @@ func genC02Ops(r *Rng, sev int) []WOp {
 	return ops
 }
 
-var c02Severities = []int{2, 3, 4, 5, 6, 7, 8, 9, 10, 11, customLevel, unregLevel}
+var c02Severities = []int{2, 3, 4, 5, 6, 7, 8, 9, 10, 11, customLevel, unregLevel, fgOnlyLevel, fgBgLevel, lateLevel}
 var c02Levels = []int{0, 1, 2, 3, 4, 5, 6, 7, 8, 9, 10, 11, customLevel}
 
 func genC02Msg(r *Rng, mode string) string {
